@@ -336,6 +336,7 @@ func runC10(c *Ctx) {
 	c.Clause("C10.7 the spec packer reads the CRYPTO write offset of the Initial stream only")
 	c.Clause("C10.8 tokenLength = max(ClientTokenLength, len(prefix)); the minimum-UDP-size padding is applied only under PacketSize == 0")
 	c.Clause("C10.9 packPlannedInitial advances initialDatagramIdx for every datagram it takes; the single PN length is installed only when the per-packet list is empty")
+	c.Clause("C10.10 every non-zero DestConnIDLength of the spec is used for the Initial's destination connection ID; the flight's frame budget is packet size minus long header minus AEAD overhead")
 	c.NotCovered("actual sizes / frame counts on the wire; decryptability by a server")
 	c.NotCovered("that a re-framed Initial stays within the connection's current maximum packet size (no such comparison exists: see DESIGN H7)")
 
@@ -348,6 +349,7 @@ func runC10(c *Ctx) {
 	c.rule("C10.7", func() { c10InitialStreamOnly(c) })
 	c.rule("C10.8", func() { c10TokenAndPadding(c) })
 	c.rule("C10.9", func() { c10PlannedIndexAndPrecedence(c) })
+	c.rule("C10.10", func() { c10SpecLengthsAndBudget(c) })
 }
 
 func c10Live(c *Ctx) {
